@@ -33,13 +33,18 @@ def cmdQueue (toks : List String) : String :=
     match capS.toNat? with
     | none => "bad-op"
     | some cap =>
-      let step (acc : Q.St × List String) (t : String) : Q.St × List String :=
-        let (s, outs) := acc
+      -- `n`: the consumer continues with a NEWLY CONSTRUCTED QueueReader (as Session::consume does for every poll): the
+      -- reader object's private `_readEnd` starts at 0 and is refreshed by the next beginRead; an endRead before that is a
+      -- misuse of the API and is not part of any script ("disabled").  The model's consumer state does not change.
+      let step (acc : Q.St × Bool × List String) (t : String) : Q.St × Bool × List String :=
+        let (s, fresh, outs) := acc
+        if t == "n" then (s, true, outs ++ ["n"]) else
         match parseQOp t with
-        | none => (s, outs ++ ["bad-op"])
+        | none => (s, fresh, outs ++ ["bad-op"])
         | some op =>
+          if fresh && (match op with | .cEnd => true | _ => false) then (s, fresh, outs ++ ["disabled"]) else
           match Q.step {} s op with
-          | none => (s, outs ++ ["disabled"])
+          | none => (s, fresh, outs ++ ["disabled"])
           | some s' =>
             let seg := match op with
               | .pBegin n _ => s!"b ok={if n ≤ s'.we - s'.wp then 1 else 0} {showQ s'}"
@@ -50,8 +55,8 @@ def cmdQueue (toks : List String) : String :=
                 let p2 := (s'.pieces.drop 1).headD []
                 s!"r p1={tokHex p1} p2={tokHex p2} {showQ s'}"
               | .cEnd => s!"d {showQ s'}"
-            (s', outs ++ [seg])
-      let (s, outs) := ops.foldl step (Q.init cap, [])
+            (s', (match op with | .cBegin _ => false | _ => fresh), outs ++ [seg])
+      let (s, _, outs) := ops.foldl step (Q.init cap, false, [])
       ";".intercalate outs ++ s!" race={match s.race with | some _ => "1" | none => "0"}"
 
 def parseOrd (s : String) : Option Q.MOrd :=
